@@ -319,7 +319,7 @@ func runC03(c *Ctx) {
 			a := argsOf(u)[1]
 			root, muts := rootLoad(argsOf(u)[2])
 			if !isStateAddr(a) || root == nil || root.X != a {
-				r.Check("C03.lock-preconditions", fname(fn)+"/update operand", m.Pos(u.Pos()), false, "update must install a mutation of the local state copy it compares against; got "+describe(argsOf(u)[2]))
+				r.Check("C03.lock-preconditions", fname(fn)+"/update operand", m.Pos(u.Pos()), false, "update must install a mutation of the local state copy it compares against; got "+describeArg(u, 2))
 				continue
 			}
 			nSites++
@@ -486,7 +486,7 @@ func runC03(c *Ctx) {
 		var listCAS *ssa.Call
 		for _, cs := range callsIn(reg) {
 			cn := calleeName(cs.Common())
-			if strings.Contains(cn, "Pointer[internal/counter.Counter]).CompareAndSwap") && strings.HasSuffix(describe(argsOf(cs)[0]), ".counters") {
+			if strings.Contains(cn, "Pointer[internal/counter.Counter]).CompareAndSwap") && strings.HasSuffix(describeArg(cs, 0), ".counters") {
 				listCAS = cs.(*ssa.Call)
 			}
 		}
@@ -616,7 +616,7 @@ func c03Swap(c *Ctx, m *Module) {
 			n++
 			held := func(f *ssa.Function, at ssa.Instruction) bool {
 				for _, lk := range callsIn(f, muLock) {
-					if strings.HasSuffix(describe(argsOf(lk)[0]), ".mu") && precedes(lk, at) {
+					if strings.HasSuffix(describeArg(lk, 0), ".mu") && precedes(lk, at) {
 						// not released before `at` other than by defer
 						unlocked := false
 						for _, ul := range callsIn(f, "(*sync.Mutex).Unlock") {
@@ -697,7 +697,7 @@ func c03Swap(c *Ctx, m *Module) {
 		for _, cl := range callsIn(fn, "(*internal/counter.mappedFile).close") {
 			published := false
 			for v := range backwardSlice(argsOf(cl)[0], 400) {
-				if lc, ok := v.(*ssa.Call); ok && strings.Contains(calleeName(&lc.Call), "mappedFile]).Load[") && strings.HasSuffix(describe(argsOf(lc)[0]), ".current") {
+				if lc, ok := v.(*ssa.Call); ok && strings.Contains(calleeName(&lc.Call), "mappedFile]).Load[") && strings.HasSuffix(describeArg(lc, 0), ".current") {
 					published = true
 				}
 			}
